@@ -75,9 +75,14 @@ def c04(ck, F, tier):
     ck.explanation = (
         "Static decision of the ordering clause of atomicity: (PUSH-LAST) in every fallible UserModel operation no error "
         "exit (`?` residual, explicit Err, or tail call whose callee can return Err) is reachable in the CFG after the "
-        "history record was pushed. Does not decide partial edits inside loops of fallible mutations.")
+        "history record was pushed; (VALIDATE-FIRST) in the six structural Model operations the can_* pre-check dominates the "
+        "first persistent write and no explicit error is constructed after it. Does not decide partial edits inside loops of "
+        "fallible mutations.")
     ck.rule("PUSH-LAST", "no Err exit reachable after push_diff_list", floor=30)
+    ck.rule("VALIDATE-FIRST", "structural model operations construct no error after their first persistent write", floor=12)
     guarded(ck, um.push_last, F)
+    import rules_struct as rs
+    guarded(ck, rs.validate_first, F)
 
 
 def c23(ck, F, tier):
@@ -147,8 +152,11 @@ def c17(ck, F, tier):
         "intersection is skipped). Values after rename/move/duplicate are not decided.")
     ck.rule("GUARD", "rename of a node's sheet name is guarded by an index comparison", floor=3)
     ck.rule("COVER-walk", "walkers recurse into every child-bearing variant", floor=12)
+    ck.rule("PCFG", "the rewrite parses stored formula text in the configuration it was printed in", floor=12)
     guarded(ck, rw.rename_guard, F)
     guarded(ck, rw.cover_walk, F, "COVER-walk", "stringify::rename_sheet_in_node")
+    import rules_pcfg as rp
+    guarded(ck, rp.pcfg, F)
 
 
 def c29(ck, F, tier):
@@ -511,8 +519,10 @@ def c07(ck, F, tier):
         "or by a single-site reason confirmed on the pinned tree. Convergence of the restart-based spill ordering is not decided.")
     ck.rule("WMC-volatile", "clock / random sources only in volatile function implementations", floor=3)
     ck.rule("HASH-ORDER", "hash-map iterations are order-insensitive", floor=25)
+    ck.rule("DIM-UNITS", "width/height of spill extents only combine with column/row quantities", floor=2)
     guarded(ck, re_.wmc_volatile, F)
     guarded(ck, re_.hash_order, F)
+    guarded(ck, re_.dim_units, F)
 
 
 def c24(ck, F, tier):
